@@ -178,6 +178,14 @@ func c06Positions() []c06Pos {
 	add(c06Pos{name: "call-arg-nested", stmt: "p1(fi() + %H)", accept: []string{"int"}})
 	add(c06Pos{name: "call-too-few", stmt: "p2(%H)", accept: nil})
 	add(c06Pos{name: "call-too-many", stmt: "p1(1, %H)", accept: nil})
+	// arity against a function declared WITHOUT parameters (as statement, as value, nested in an expression)
+	add(c06Pos{name: "call-one-for-none.void-stmt", stmt: "fv(%H)", accept: nil})
+	add(c06Pos{name: "call-two-for-none.void-stmt", stmt: "fv(1, %H)", accept: nil})
+	add(c06Pos{name: "call-one-for-none.value", stmt: "r := fi(%H)\nprint(r)", accept: nil})
+	add(c06Pos{name: "call-one-for-none.nested", stmt: "r := 1 + fi(%H)\nprint(r)", accept: nil})
+	add(c06Pos{name: "call-one-for-none.as-argument", stmt: "p1(fi(%H))", accept: nil})
+	add(c06Pos{name: "call-too-many-3of2", stmt: `p2(1, "x", %H)`, accept: nil})
+	add(c06Pos{name: "call-too-few-2of3", stmt: "p3(1, %H)", accept: nil})
 	add(c06Pos{name: "call-none-for-one", stmt: "p1()\nprint(%H)", accept: nil, skip: func(o c06Offer) bool { return o.typ == "void" || o.typ == "multi" || strings.HasPrefix(o.typ, "[]") }})
 	// return values at nesting depths 0, 1, 2
 	wrapRet := map[string][2]string{
